@@ -320,6 +320,17 @@ def gen_valid(rng, size=None):
     tasks = [ns.new() for _ in range(rng.randint(1, 2))]
     insts = [(ns.new(), rng.choice(tasks + [None]), rng.choice(progs)) for _ in range(rng.randint(1, 2))]
     decls.append(('C', ns.new(), globals_, tasks, insts))
+    # sometimes a second configuration with globals, tasks and program instances of its own
+    if rng.random() < 0.3:
+        g2const = rng.random() < 0.5   # (a configuration has one VAR_GLOBAL block)
+        g2 = [var(ns.new(), 'g', 'i', rng.randint(0, 99), g2const) for _ in range(rng.randint(0, 2))]
+        t2 = [ns.new() for _ in range(rng.randint(1, 2))]
+        i2 = [(ns.new(), rng.choice(t2 + [None]), rng.choice(progs)) for _ in range(rng.randint(1, 2))]   # (a resource has at least one program)
+        decls.append(('C', ns.new(), g2, t2, i2))
+        # an external of a global of the second configuration in a new function block
+        if g2:
+            g = g2[0]; n = ns.new(); a = ns.new()
+            decls.append(('F', n, [var(a, 'v', 'i'), var(g['name'], 'e', 'i', None, g['const'])], [('a', a, [g['name']])]))
     # legal shadowing: a local CONSTANT in one POU with the name of a non-constant global that another POU
     # imports as a non-constant external (the external rule is about constant *globals* only)
     if globals_ and not gconst and rng.random() < 0.5:
@@ -452,9 +463,17 @@ def plant_all(decls, ns, rng):
             ds = copy.deepcopy(decls); ds.append(('R', d[1], 1, 2))
             out.append(('dup-type-name', 'P0019', ds))
             break
-    for i, d in enumerate(decls):
-        if d[0] in 'FUP':
-            ds = copy.deepcopy(decls); ds.append(('P', d[1], [var(ns.n + 8, 'v', 'i')], [('a', ns.n + 8, [])]))
-            out.append(('dup-pou-name', 'P0020', ds))
-            break
+    # a second declaration with the name of the first function block / function / program / configuration
+    # (each kind of its own: the four are registered at different places of the analyzer)
+    for kind in 'FUPC':
+        for i, d in enumerate(decls):
+            if d[0] == kind:
+                ds = copy.deepcopy(decls)
+                if kind == 'C':
+                    progs = [x[1] for x in decls if x[0] == 'P']
+                    ds.append(('C', d[1], [], [ns.n + 9], [(ns.n + 10, ns.n + 9, progs[0])] if progs else []))
+                else:
+                    ds.append(('P', d[1], [var(ns.n + 8, 'v', 'i')], [('a', ns.n + 8, [])]))
+                out.append(('dup-pou-name', 'P0020', ds))
+                break
     return out
